@@ -9,15 +9,15 @@ UNITS = [
 ]
 B_PRO = ('dirty masks of GP (16 bit), xmm0-15, k0-7, mm0-7 symbolic; local and call stack size 0..64 KiB in whole machine words; local and call alignment 1..64; '
          'all user attributes; optional user-chosen stack-argument base register; entry SP symbolic (aligned as the convention guarantees); entry values of all registers symbolic')
-def HP(fn, what, gp, vec, known=None, mem=6, timeout=1200, tiers=('quick', 'thorough')):
+def HP(fn, what, gp, vec, known=None, mem=2, timeout=1200, tiers=('quick', 'thorough')):
     # loop bounds: push loop (saved GP registers + 1), save/restore loop of the other groups (saved registers per group + 1), pop loop (16 + 1)
     return Harness('prolog_x86', fn, unwind=17, unwindset='%s.0:%d,%s.1:%d,%s.0:%d' % (PRO, gp, PRO, vec, EPI, vec), bounds=what + '; ' + B_PRO, known=known, mem_gb=mem, timeout=timeout, tiers=tiers)
 B_PRO_A64 = ('dirty masks of x0-x30 and v0-v31 symbolic (all 2^32 values); local and call stack size 0..64 KiB in 8-byte words; local and call alignment 1..64; '
              'preserved FP, calls, varargs, BTI attributes; stack-argument base register SP or FP; entry SP symbolic and 16-byte aligned; entry values of all registers symbolic')
-def HA(fn, what, known=None, unwind=33, mem=6, timeout=1200, tiers=('quick', 'thorough')):
+def HA(fn, what, known=None, unwind=33, mem=2, timeout=1200, tiers=('quick', 'thorough')):
     A64P = '_ZN6asmjit5v1_213a6410EmitHelper11emit_prologERKNS0_9FuncFrameE'; A64E = '_ZN6asmjit5v1_213a6410EmitHelper11emit_epilogERKNS0_9FuncFrameE'; PEI = '_ZN6asmjit5v1_213a6416PrologEpilogInfo4initERKNS0_9FuncFrameE'
     # library loops: pair loops (AAPCS64: at most 7 GP and 4 vector pairs; light-call: 14 and 14), mask iteration in PrologEpilogInfo::init (13 / 28 registers)
-    pairs, regs = (4, 6) if ('small' in fn or 'C07C' in fn or 'C07D' in fn) else (8, 14)
+    pairs, regs = (3, 4) if ('C07C' in fn or 'C07D' in fn) else (4, 6) if 'small' in fn else (8, 14)
     if 'light' in fn or 'C07E' in fn: pairs, regs = (12, 22)   # light-call also preserves x4-x17: up to 18 + 5 dirty GP registers in the slice
     us = ','.join('%s.%d:%d' % (f, i, pairs) for f in (A64P, A64E) for i in range(4)) + ',%s.0:%d,%s.1:%d' % (PEI, regs, PEI, regs)
     return Harness('prolog_a64', fn, unwind=unwind, unwindset=us, bounds=what + '; ' + B_PRO_A64, known=known, mem_gb=mem, timeout=timeout, tiers=tiers)
@@ -25,10 +25,10 @@ B_FRAME = ('every convention id valid for the arch (real CallConv::init); dirty 
            'local and call alignment 1,2,..,64; all user attributes (preserved FP, calls, AVX, AVX-512, cleanup flags, IBT, varargs); optional user-chosen '
            'stack-argument base register; optional red-zone reset; used-register masks and stack-argument size 0..65532 handed over by FuncDetail')
 HARNESSES = [
-    Harness('frame', 'h_frame_x86', unwind=6, bounds='x86-32 (11 convention ids x windows/linux): ' + B_FRAME, mem_gb=4, timeout=600),
-    Harness('frame', 'h_frame_x86_kf_C07A', unwind=6, known='C07A', bounds='region of known finding C07A: x86-32, final alignment 8 > natural alignment 4, no realignment; otherwise as h_frame_x86', mem_gb=4, timeout=600),
-    Harness('frame', 'h_frame_x64', unwind=6, bounds='x86-64 (SysV, Win64, vectorcall, light-call 2-4, 32-bit ids mapped by platform): ' + B_FRAME, mem_gb=4, timeout=600),
-    Harness('frame', 'h_frame_a64', unwind=6, bounds='AArch64 (AAPCS64/Apple, light-call): ' + B_FRAME, mem_gb=4, timeout=600),
+    Harness('frame', 'h_frame_x86', unwind=6, bounds='x86-32 (11 convention ids x windows/linux): ' + B_FRAME, mem_gb=1, timeout=600),
+    Harness('frame', 'h_frame_x86_kf_C07A', unwind=6, known='C07A', bounds='region of known finding C07A: x86-32, final alignment 8 > natural alignment 4, no realignment; otherwise as h_frame_x86', mem_gb=1, timeout=600),
+    Harness('frame', 'h_frame_x64', unwind=6, bounds='x86-64 (SysV, Win64, vectorcall, light-call 2-4, 32-bit ids mapped by platform): ' + B_FRAME, mem_gb=1, timeout=600),
+    Harness('frame', 'h_frame_a64', unwind=6, bounds='AArch64 (AAPCS64/Apple, light-call): ' + B_FRAME, mem_gb=1, timeout=600),
     HP('h_prolog_x64_sysv', 'x86-64 SysV', gp=8, vec=1),
     HP('h_prolog_x86_cdecl', 'x86-32 cdecl (Linux)', gp=6, vec=1),
     HP('h_prolog_x86_stdcall', 'x86-32 stdcall (Windows)', gp=6, vec=1),
@@ -37,18 +37,18 @@ HARNESSES = [
     HP('h_prolog_x86_vectorcall', 'x86-32 vectorcall (Windows)', gp=6, vec=1),
     HP('h_prolog_x86_regparm3', 'x86-32 regparm(3) (Linux)', gp=6, vec=1),
     HP('h_prolog_x86_kf_C07A', 'x86-32 cdecl, region of known finding C07A', gp=6, vec=1, known='C07A'),
-    HP('h_prolog_x64_win', 'Win64 (xmm6-15 callee-saved)', gp=10, vec=11, mem=8, timeout=2400, tiers=('thorough',)),
-    HP('h_prolog_x64_vectorcall', 'x86-64 vectorcall (xmm6-15 callee-saved)', gp=10, vec=11, mem=8, timeout=2400, tiers=('thorough',)),
-    HP('h_prolog_x64_custom', 'x86-64 with a user-defined convention that also preserves symbolic sets of xmm, k and mm registers', gp=8, vec=17, mem=8, timeout=4800, tiers=('thorough',)),
-    HP('h_prolog_x64_kf_C07B', 'region of known finding C07B (user-defined convention preserving k registers)', gp=8, vec=17, mem=8, timeout=2400, known='C07B', tiers=('thorough',)),
-    HP('h_prolog_x64_light3', 'x86-64 light-call 3 (all GP and most xmm registers callee-saved)', gp=17, vec=17, mem=8, timeout=4800, tiers=('thorough',)),
-    HP('h_prolog_x86_light2', 'x86-32 light-call 2', gp=9, vec=9, mem=8, timeout=2400, tiers=('thorough',)),
+    HP('h_prolog_x64_win', 'Win64 (xmm6-15 callee-saved)', gp=10, vec=11, mem=4, timeout=2400, tiers=('thorough',)),
+    HP('h_prolog_x64_vectorcall', 'x86-64 vectorcall (xmm6-15 callee-saved)', gp=10, vec=11, mem=4, timeout=2400, tiers=('thorough',)),
+    HP('h_prolog_x64_custom', 'x86-64 with a user-defined convention that also preserves symbolic sets of xmm, k and mm registers', gp=8, vec=17, mem=4, timeout=4800, tiers=('thorough',)),
+    HP('h_prolog_x64_kf_C07B', 'region of known finding C07B (user-defined convention preserving k registers)', gp=8, vec=17, mem=4, timeout=2400, known='C07B', tiers=('thorough',)),
+    HP('h_prolog_x64_light3', 'x86-64 light-call 3 (all GP and most xmm registers callee-saved)', gp=17, vec=17, mem=4, timeout=4800, tiers=('thorough',)),
+    HP('h_prolog_x86_light2', 'x86-32 light-call 2', gp=9, vec=9, mem=4, timeout=2400, tiers=('thorough',)),
     HA('h_prolog_a64_aapcs_small', 'AAPCS64 (Linux), quick slice: dirty registers within x19-x21, x29, x30, d8-d10 (plus any caller-saved register)'),
-    HA('h_prolog_a64_apple_small', 'Apple arm64, quick slice: dirty registers within x19-x21, x29, x30, d8-d10 (plus any caller-saved register)'),
-    HA('h_prolog_a64_kf_C07C', 'AAPCS64 quick slice, region of known finding C07C (alignment 32 or 64)', known='C07C'),
-    HA('h_prolog_a64_kf_C07D', 'AAPCS64 quick slice, region of known finding C07D (preserved FP)', known='C07D'),
-    HA('h_prolog_a64_aapcs', 'AAPCS64 (Linux)', mem=8, timeout=3000, tiers=('thorough',)),
-    HA('h_prolog_a64_apple', 'Apple arm64', mem=8, timeout=3000, tiers=('thorough',)),
+    HA('h_prolog_a64_apple_small', 'Apple arm64, slice: dirty registers within x19-x21, x29, x30, d8-d10 (plus any caller-saved register)', tiers=('thorough',)),
+    HA('h_prolog_a64_kf_C07C', 'AAPCS64, region of known finding C07C (alignment 32 or 64); dirty callee-saved registers within x19, x29, x30', known='C07C'),
+    HA('h_prolog_a64_kf_C07D', 'AAPCS64, region of known finding C07D (preserved FP); dirty callee-saved registers within x19, x29, x30', known='C07D'),
+    HA('h_prolog_a64_aapcs', 'AAPCS64 (Linux)', mem=4, timeout=3000, tiers=('thorough',)),
+    HA('h_prolog_a64_apple', 'Apple arm64', mem=4, timeout=3000, tiers=('thorough',)),
     HA('h_prolog_a64_light_small', 'AArch64 light-call 2 (16-byte vector slots), slice: dirty registers within x19-x21, x29, x30, d8-d10 plus x0-x17', timeout=2400, tiers=('thorough',)),
     HA('h_prolog_a64_kf_C07E', 'AArch64 light-call 2, same slice, region of known finding C07E (odd number of saved vector registers)', known='C07E', timeout=2400, tiers=('thorough',)),
 ]
